@@ -121,7 +121,42 @@ def gen_session(rng, big=False):
     names = [rng.choice(PLACERS) for _ in range(k)]
     if rng.random() < 0.6 and not any(nm in NET_USERS for nm in names[1:]):
         names[rng.randrange(1, k)] = rng.choice(NET_USERS)
-    return {"problem": prob, "calls": [[nm, rng.randrange(2 ** 30)] for nm in names]}
+    session = {"problem": prob, "problem2": None}
+    style = rng.choice(["plain", "plain", "edits", "edits", "results", "faults", "two-problems", "repeat"])
+    if style == "edits" and rng.random() < 0.6:
+        names = [names[-1]] * k         # the same placer before and after the caller's edits (TWINS in time)
+    import json
+    cur = [json.loads(json.dumps(prob))]
+    if style == "two-problems":
+        while True:
+            p2 = c02.gen_problem(rng, big=False, unit=rng.random() < 0.3)
+            if len(p2["vr"]) >= 2 and not p2["ood"]:
+                break
+        session["problem2"] = p2
+        cur.append(json.loads(json.dumps(p2)))
+    steps = []
+    for i, nm in enumerate(names):
+        on = i % len(cur)
+        seed = rng.randrange(2 ** 30)
+        after = rng.choice(["keep", "clear", "poison"]) if style == "results" else "keep"
+        if style == "faults" and i < k - 1 and rng.random() < 0.6:
+            fn = rng.choice(["rand", "sa-python", "sa-python", "sa-c"])
+            where = "rng" if fn == "rand" else rng.choice(["rng", "callback", "kernel-run", "kernel-init"]
+                                                         if fn == "sa-python" else ["rng", "callback"])
+            steps.append({"on": on, "fault": [fn, seed, where, rng.choice([1, 1, 2, 3, 5, 9, 20])]})
+        else:
+            steps.append({"on": on, "call": [nm, seed], "after": after})
+            if style == "repeat" and rng.random() < 0.7:
+                steps.append({"on": on, "call": [nm, seed], "after": "keep"})
+        if style == "edits" and i < k - 1:
+            for _ in range(rng.choice([1, 1, 2])):
+                e = gen_edit(rng, cur[on])
+                if e is not None:
+                    edit_json(cur[on], e)
+                    steps.append({"on": on, "edit": e})
+    session["steps"] = steps
+    session["style"] = style
+    return session
 
 
 # ---------------------------------------------------------------------------
@@ -213,39 +248,299 @@ def call_placer(name, seed, prob, vr, nets, machine, cs):
         from rig.place_and_route.place.sa.c_kernel import CKernel
     except ImportError:
         return None
+    from harness import c02_variants
+    if c02_variants.too_big_for_c(prob):
+        return None                     # the C kernel stores quantities in C ints
     return c02.outcome(lambda: sa_alg.place(vr, nets, machine, cs, effort=prob["effort"],
                                             random=_random.Random(seed), on_temperature_change=on_temp,
                                             kernel=CKernel))
 
 
-def run_session(session):
-    """-> list of steps {placer, seed, out, before (snapshot or None when unchanged), changed: [summary]}"""
+# ---- what the caller does between the calls --------------------------------------------------------
+
+EDITS = ["demand", "add-vertex", "del-net", "add-net", "add-sink", "kill-chip", "revive-chip", "capacity",
+         "del-constraint", "add-reserve"]
+
+
+def gen_edit(rng, prob):
+    """an edit of the problem that keeps it in the documented domain; None when the drawn kind does not apply"""
+    n, R = len(prob["vr"]), len(prob["res"])
+    kind = rng.choice(EDITS)
+    dead = {tuple(c) for c in prob["dead"]}
+    inside = [(x, y) for x in range(prob["w"]) for y in range(prob["h"])]
+    if kind == "demand" and n and R:
+        d = [rng.choice([0, 1, 1, 2]) for _ in range(R)]
+        if prob.get("unit_r0") is not None:
+            d = [0] * R
+            d[prob["unit_r0"]] = rng.choice([0, 1])
+        return ["demand", rng.randrange(n), d]
+    if kind == "add-vertex" and R:
+        d = [0] * R
+        d[prob["unit_r0"] if prob.get("unit_r0") is not None else rng.randrange(R)] = rng.choice([0, 1])
+        return ["add-vertex", d]
+    if kind == "del-net" and prob["nets"]:
+        return ["del-net", rng.randrange(len(prob["nets"]))]
+    if kind == "add-net" and n:
+        return ["add-net", rng.randrange(n), [rng.randrange(n) for _ in range(rng.choice([1, 2, 3]))], rng.choice([1, 2, 0.5])]
+    if kind == "add-sink" and prob["nets"] and n:
+        return ["add-sink", rng.randrange(len(prob["nets"])), rng.randrange(n)]
+    if kind == "kill-chip":
+        busy = {tuple(c) for c, _ in prob["exc"]} | {tuple(c["c"]) for c in prob["cs"] if c["t"] == "res" and c["c"]}
+        ok = [c for c in inside if c not in dead and c not in busy]
+        if len(ok) >= 2:
+            return ["kill-chip", list(rng.choice(ok))]
+    if kind == "revive-chip":
+        ok = [c for c in inside if c in dead]
+        if ok:
+            return ["revive-chip", list(rng.choice(ok))]
+    if kind == "capacity" and R:
+        return ["capacity", [max(0, x + rng.choice([-1, 1, 2])) for x in prob["res"]]]
+    if kind == "del-constraint" and prob["cs"]:
+        return ["del-constraint", rng.randrange(len(prob["cs"]))]
+    if kind == "add-reserve" and R and n:
+        return ["add-reserve", rng.randrange(R), 1]
+    return None
+
+
+def edit_json(prob, e):
+    k = e[0]
+    if k == "demand":
+        prob["vr"][e[1]] = [e[1], list(e[2]), [True] * len(e[2])]
+    elif k == "add-vertex":
+        n = len(prob["vr"])
+        prob["vr"].append([n, list(e[1]), [True] * len(e[1])])
+        prob["vo"].append(n)
+    elif k == "del-net":
+        del prob["nets"][e[1]]
+    elif k == "add-net":
+        prob["nets"].append([e[1], list(e[2]), e[3]])
+    elif k == "add-sink":
+        prob["nets"][e[1]][1].append(e[2])
+    elif k == "kill-chip":
+        prob["dead"].append(list(e[1]))
+    elif k == "revive-chip":
+        prob["dead"].remove(list(e[1]))
+    elif k == "capacity":
+        prob["res"] = list(e[1])
+    elif k == "del-constraint":
+        del prob["cs"][e[1]]
+    elif k == "add-reserve":
+        prob["cs"].append({"t": "res", "r": e[1], "amt": e[2], "c": None})
+
+
+def edit_objects(prob, e, vr, nets, machine, cs):
+    """the same edit, made IN PLACE on the objects the caller passed before (prob = the problem before the edit)"""
+    from harness import c02, c02_names, c02_variants
+    from rig.netlist import Net
+    from rig.place_and_route.constraints import ReserveResourceConstraint
+    RES = c02.resources(prob)
+    K = c02_variants.scale_of(prob)
+    keys = list(vr)
+    k = e[0]
+    if k == "demand":
+        d = vr[keys[e[1]]]
+        d.clear()
+        d.update({RES[i]: x * K for i, x in enumerate(e[2])})
+    elif k == "add-vertex":
+        vr[c02_names.Namer(prob).obj(len(keys))] = {RES[i]: x * K for i, x in enumerate(e[1])}
+    elif k == "del-net":
+        del nets[e[1]]
+    elif k == "add-net":
+        nets.append(Net(keys[e[1]], [keys[v] for v in e[2]], e[3]))
+    elif k == "add-sink":
+        nets[e[1]].sinks.append(keys[e[2]])
+    elif k == "kill-chip":
+        machine.dead_chips.add(tuple(e[1]))
+    elif k == "revive-chip":
+        machine.dead_chips.discard(tuple(e[1]))
+    elif k == "capacity":
+        for i, x in enumerate(e[1]):
+            machine.chip_resources[RES[i]] = x * K
+    elif k == "del-constraint":
+        del cs[e[1]]
+    elif k == "add-reserve":
+        cs.append(ReserveResourceConstraint(RES[e[1]], slice(3, 3 + e[2] * K)))
+
+
+# ---- faults injected by the caller's own objects ----------------------------------------------------
+
+class InjectedFault(Exception):
+    pass
+
+
+def faulty_call(name, seed, where, k, prob, vr, nets, machine, cs):
+    """the caller's RNG / callback / kernel raises InjectedFault at its k-th use"""
     from harness import c02
-    prob = session["problem"]
-    vr, nets, machine, cs = c02.build(prob)
-    orig = snapshot(vr, nets, machine, cs)
-    cur = orig
-    steps = []
-    for name, seed in session["calls"]:
-        out = call_placer(name, seed, prob, vr, nets, machine, cs)
+    from rig.place_and_route.place import rand
+    from rig.place_and_route.place.sa import algorithm as sa_alg
+    from rig.place_and_route.place.sa import python_kernel
+    count = [0]
+
+    def tick():
+        count[0] += 1
+        if count[0] == k:
+            raise InjectedFault("injected at use %d of the caller's %s" % (k, where))
+
+    class FaultyRandom(_random.Random):
+        def sample(self, *a):
+            tick()
+            return _random.Random.sample(self, *a)
+
+        def shuffle(self, *a):
+            tick()
+            return _random.Random.shuffle(self, *a)
+
+        def choice(self, *a):
+            tick()
+            return _random.Random.choice(self, *a)
+
+        def randint(self, *a):
+            tick()
+            return _random.Random.randint(self, *a)
+
+        def random(self):
+            tick()
+            return _random.Random.random(self)
+
+    rng = FaultyRandom(seed) if where == "rng" else _random.Random(seed)
+    if name == "rand":
+        return c02.outcome(lambda: rand.place(vr, nets, machine, cs, rng))
+    temps = [0]
+
+    def on_temp(*a):
+        if where == "callback":
+            tick()
+        temps[0] += 1
+        if temps[0] >= 6:
+            return False
+
+    class FaultyKernel(python_kernel.PythonKernel):
+        def __init__(self, *a, **kw):
+            if where == "kernel-init":
+                tick()
+            python_kernel.PythonKernel.__init__(self, *a, **kw)
+
+        def run_steps(self, *a):
+            if where == "kernel-run":
+                tick()
+            return python_kernel.PythonKernel.run_steps(self, *a)
+
+    kernel, kk = FaultyKernel, {"no_warn": True}
+    if name == "sa-c":
+        try:
+            from rig.place_and_route.place.sa.c_kernel import CKernel
+        except ImportError:
+            return None
+        from harness import c02_variants
+        if c02_variants.too_big_for_c(prob):
+            return None
+        kernel, kk = CKernel, {}
+    return c02.outcome(lambda: sa_alg.place(vr, nets, machine, cs, effort=max(prob["effort"], 0.1), random=rng,
+                                            on_temperature_change=on_temp, kernel=kernel, kernel_kwargs=kk), 30)
+
+
+def reload_rig():
+    """a history starts from freshly executed placer modules (module-level / default-argument state of an
+    earlier history cannot leak in, so a replay of the history alone reproduces it)"""
+    import importlib
+    im = importlib.import_module
+    base = "rig.place_and_route.place."
+    u, sq, bf, hl, rc, rd, pk, al = [im(base + n) for n in ("utils", "sequential", "breadth_first", "hilbert", "rcm",
+                                                             "rand", "sa.python_kernel", "sa.algorithm")]
+    sa_pkg = im(base + "sa")
+    pr = im("rig.place_and_route")
+    was_default = getattr(pr, "place", None) is getattr(sa_pkg, "place", None)
+    for m in (u, sq, bf, hl, rc, rd, pk, al):
+        importlib.reload(m)
+    sa_pkg.place = al.place
+    if was_default:
+        pr.place = al.place
+
+
+def session_steps(session):
+    if "steps" in session:
+        return session["steps"]
+    return [{"on": 0, "call": c, "after": "keep"} for c in session["calls"]]
+
+
+def run_session(session):
+    """interpret the script of a session -> list of records of its calls"""
+    import json
+    from harness import c02
+    reload_rig()
+    slots = []
+    for prob in [session["problem"]] + ([session["problem2"]] if session.get("problem2") else []):
+        prob = json.loads(json.dumps(prob))
+        objs = c02.build(prob)
+        snap = snapshot(*objs)
+        slots.append({"prob": prob, "objs": objs, "base": snap, "cur": snap, "result_edited": None})
+    records, kept = [], []
+    for k, st in enumerate(session_steps(session)):
+        sl = slots[st.get("on", 0) % len(slots)]
+        prob, (vr, nets, machine, cs) = sl["prob"], sl["objs"]
+        if "edit" in st:
+            edit_objects(prob, st["edit"], vr, nets, machine, cs)
+            edit_json(prob, st["edit"])
+            sl["base"] = sl["cur"] = snapshot(vr, nets, machine, cs)        # the caller's own edit is not a finding
+            sl["modifier"] = None
+            continue
+        if "fault" in st:
+            name, seed, where, kk = st["fault"]
+            out = faulty_call(name, seed, where, kk, prob, vr, nets, machine, cs)
+        else:
+            name, seed = st["call"]
+            out = call_placer(name, seed, prob, vr, nets, machine, cs)
         if out is None:
             continue
         after = snapshot(vr, nets, machine, cs)
-        steps.append({"placer": name, "seed": seed, "out": out, "args_differ_from_original": diff_summary(orig, cur),
-                      "changed_by_call": diff_summary(cur, after)})
-        cur = after
-    return steps
+        pj = json.loads(json.dumps(prob))
+        pj["unit"] = pj.get("unit_r0") is not None and c02.unit_ok(pj, pj["unit_r0"])
+        rec = {"k": k, "on": st.get("on", 0), "placer": name, "seed": seed, "out": out, "prob": pj,
+               "fault": st.get("fault"), "args_differ": diff_summary(sl["base"], sl["cur"]),
+               "changed_by_call": diff_summary(sl["cur"], after), "result_edited_before": sl["result_edited"],
+               "modifier": sl.get("modifier")}
+        if rec["changed_by_call"] and sl.get("modifier") is None:
+            sl["modifier"] = (k, name, rec["changed_by_call"])      # first call that changed an argument
+        sl["cur"] = after
+        _encode(out)
+        if "ok" in out and isinstance(out["ok"], dict):
+            how = st.get("after", "keep")
+            rec["after"] = how
+            if how == "keep":
+                kept.append((rec, out["ok"]))
+            else:
+                # the caller edits what it was handed back
+                if how == "clear":
+                    out["ok"].clear()
+                else:
+                    for v in list(out["ok"]):
+                        out["ok"][v] = (prob["w"] + 7, prob["h"] + 7)
+                    out["ok"]["not a vertex"] = (0, 0)
+                sl["result_edited"] = k
+        records.append(rec)
+    # results the caller kept: still what was returned?
+    for rec, d in kept:
+        later = {"ok": d}
+        _encode(later)
+        rec["later_enc"] = later.get("enc")
+    return records
 
 
 def judge(ctx, prob, name, out, valid_reply):
-    """-> None or (key, what): the result of one call against the original problem (the keys of the main stream)"""
+    """-> None or (key, what): the result of one call against the problem as the caller last left it (the keys of
+    the main stream)"""
+    from harness import c02
     if "ok" in out:
         if out.get("enc") is None:
-            return ("infeasible-placement-" + name, "%s returned a placement with a non-chip value or a foreign vertex: %r" % (
-                name, sorted(out["ok"].items(), key=repr)[:20]))
+            return ("infeasible-placement-" + name, "%s returned a placement with a non-chip value or a foreign vertex" % name)
         if not valid_reply.get("valid"):
             return ("infeasible-placement-" + name, "%s returned an infeasible placement (%s): %r" % (
                 name, valid_reply.get("why"), out["enc"]))
+        return None
+    if out["err"] == "DidNotReturn":
+        if name in c02.TERMINATING:
+            return ("did-not-return", "%s did not return: %s (the model of this placer terminates on every input)" % (
+                name, out.get("msg")))
         return None
     if out["err"] not in DOCUMENTED:
         return ("%s-raises-%s" % (name, out["err"]),
@@ -260,7 +555,7 @@ def judge(ctx, prob, name, out, valid_reply):
 
 def _encode(out):
     from harness import c02
-    if "ok" in out:
+    if "ok" in out and "enc" not in out:
         p = out["ok"]
         from harness import c02_names
         out["enc"] = c02.enc_placement(p) if all(c02_names.index_of(v) is not None for v in p) else None
@@ -270,59 +565,94 @@ def eval_sessions(ctx, sessions):
     from harness import c02
     work, reqs = [], []
     for session in sessions:
-        prob = session["problem"]
-        prob["unit"] = prob.get("unit_r0") is not None and c02.unit_ok(prob, prob["unit_r0"])
-        steps = run_session(session)
-        base = c02.lean_problem(prob)
-        for st in steps:
-            _encode(st["out"])
-            st["req"] = None
-            if st["out"].get("enc") is not None:
-                st["req"] = len(reqs)
-                reqs.append(dict(base, suite="c02", op="valid", p=st["out"]["enc"]))
-        work.append((session, steps))
+        records = run_session(session)
+        for rec in records:
+            rec["req"] = rec["req2"] = None
+            base = dict(c02.lean_problem(rec["prob"]), suite="c02", op="valid")
+            if rec["out"].get("enc") is not None:
+                rec["req"] = len(reqs)
+                reqs.append(dict(base, p=rec["out"]["enc"]))
+            if rec.get("later_enc") is not None and rec["later_enc"] != rec["out"].get("enc"):
+                rec["req2"] = len(reqs)
+                reqs.append(dict(base, p=rec["later_enc"]))
+        work.append((session, records))
     replies = ctx.lean(reqs)
-    for session, steps in work:
-        prob = session["problem"]
+    for session, records in work:
         desc = {"session": session}
-        base = c02.lean_problem(prob)
-        modifier = None         # (step index, placer, summary) of the first call that changed an argument
         placed = 0
-        for k, st in enumerate(steps):
-            name, out = st["placer"], st["out"]
+        for rec in records:
+            name, out, prob, k = rec["placer"], rec["out"], rec["prob"], rec["k"]
             ctx.traces += 1
             ctx.tag("session:%s:%s" % (name, "placed" if "ok" in out else out["err"]))
-            if "ok" in out and len(out["ok"]) >= 2:
+            if "ok" in out and rec["out"].get("enc") and len(rec["out"]["enc"]) >= 2:
                 placed += 1
-            bad = judge(ctx, prob, name, out, {} if st["req"] is None else replies[st["req"]])
+            if out.get("err") == "DidNotReturn" and name not in c02.TERMINATING:
+                ctx.mismatch("c02.did-not-return", "%s did not return: %s" % (name, out.get("msg")), dict(desc, step=k))
+            if rec["fault"]:
+                # the caller's own object failed: its exception passing through is the expected outcome; what
+                # matters is the continued use of the same objects afterwards (judged at the later calls)
+                if out.get("err") == "InjectedFault":
+                    ctx.tag("session:fault:%s:propagated" % rec["fault"][2])
+                    bad = None
+                elif "ok" in out or out["err"] in DOCUMENTED:
+                    ctx.tag("session:fault:%s:not-reached" % rec["fault"][2])
+                    bad = judge(ctx, dict(prob, unit=False), name, out, {} if rec["req"] is None else replies[rec["req"]])
+                else:
+                    ctx.tag("session:fault:%s:other-exception:%s" % (rec["fault"][2], out["err"]))
+                    bad = None
+            else:
+                bad = judge(ctx, prob, name, out, {} if rec["req"] is None else replies[rec["req"]])
             if bad is not None:
                 key, what = bad
                 case = dict(desc, step=k, placer=name)
-                if st["args_differ_from_original"] and modifier is not None:
-                    # is the failure the consequence of the modified arguments?  the same call on fresh objects
-                    fvr, fnets, fmachine, fcs = c02.build(prob)
-                    fresh = call_placer(name, st["seed"], prob, fvr, fnets, fmachine, fcs)
-                    _encode(fresh)
-                    frep = {}
-                    if fresh.get("enc") is not None:
-                        frep = ctx.lean([dict(base, suite="c02", op="valid", p=fresh["enc"])])[0]
-                    if judge(ctx, prob, name, fresh, frep) is None:
-                        mk, mname, msum = modifier
-                        key = "caller-%s-modified" % msum[0].split(":")[0].split("[")[0]
-                        what = ("call %d of the session, %s, modified its caller's arguments (%s); call %d on the same "
-                                "objects then failed: %s - the same call on fresh objects built from the original problem %s"
-                                % (mk + 1, mname, "; ".join(msum)[:300], k + 1, what,
-                                   "returns a feasible placement" if "ok" in fresh else "raises " + fresh["err"]))
+                mod = rec["modifier"]
+                if (rec["args_differ"] and mod is not None) or rec["result_edited_before"] is not None:
+                    # is the failure the consequence of what happened earlier in the session?  the same call on
+                    # fresh objects built from the problem as the caller last left it
+                    fresh = call_placer(name, rec["seed"], prob, *c02.build(prob)) if not rec["fault"] else None
+                    if fresh is not None:
+                        _encode(fresh)
+                        frep = {}
+                        if fresh.get("enc") is not None:
+                            frep = ctx.lean([dict(c02.lean_problem(prob), suite="c02", op="valid", p=fresh["enc"])])[0]
+                        if judge(ctx, prob, name, fresh, frep) is None:
+                            tail = " - the same call on fresh objects built from the same problem %s" % (
+                                "returns a feasible placement" if "ok" in fresh else "raises " + fresh["err"])
+                            if rec["args_differ"] and mod is not None:
+                                mk, mname, msum = mod
+                                key = "caller-%s-modified" % msum[0].split(":")[0].split("[")[0]
+                                what = ("step %d of the session, %s, modified its caller's arguments (%s); step %d on the "
+                                        "same objects then failed: %s%s" % (mk + 1, mname, "; ".join(msum)[:300], k + 1,
+                                                                             what, tail))
+                            else:
+                                key = "returned-placement-shared"
+                                what = ("the caller edited the dictionary returned by step %d; step %d then failed: %s%s"
+                                        % (rec["result_edited_before"] + 1, k + 1, what, tail))
                 _report(ctx, key, what, case)
-            if st["changed_by_call"]:
-                for s in st["changed_by_call"]:
-                    ctx.tag("session:argument-modified:%s:%s" % (name, s.split(":")[0].split("[")[0]))
-                if modifier is None:
-                    modifier = (k, name, st["changed_by_call"])
-        ctx.tag("session:calls=%d" % len(steps))
-        for kind in group_kinds(prob):
+            # (c) a result the caller kept must still be the placement that was returned
+            if rec.get("later_enc", rec["out"].get("enc")) != rec["out"].get("enc"):
+                still = rec["req2"] is not None and replies[rec["req2"]].get("valid")
+                ctx.tag("session:kept-result-changed:" + ("still-feasible" if still else "infeasible"))
+                if not still:
+                    _report(ctx, "returned-placement-changed-later",
+                            "the placement returned by step %d (%s) was feasible when returned; after the later steps of "
+                            "the session the same dictionary reads %r" % (k + 1, name, rec.get("later_enc")),
+                            dict(desc, step=k, placer=name))
+            if rec["changed_by_call"]:
+                for s_ in rec["changed_by_call"]:
+                    ctx.tag("session:argument-modified:%s:%s" % (name, s_.split(":")[0].split("[")[0]))
+        steps = session_steps(session)
+        ctx.tag("session:calls=%d" % len(records))
+        for st in steps:
+            if "edit" in st:
+                ctx.tag("session:edit:" + st["edit"][0])
+            elif "call" in st and st.get("after", "keep") != "keep":
+                ctx.tag("session:result-" + st["after"])
+        if session.get("problem2"):
+            ctx.tag("session:two-problems-alternately")
+        for kind in group_kinds(session["problem"]):
             ctx.tag("session:group:" + kind)
-        if prob["unit"]:
+        if any(r["prob"]["unit"] for r in records):
             ctx.tag("session:unit-hypothesis")
         ctx.case(desc, placed >= 2)
 
@@ -353,12 +683,22 @@ def unit_problem(rng, w, h, dead, dead_links, cap, reserve):
     rng.shuffle(co)
     co.insert(rng.randrange(len(co) + 1), (w + 1, 0))
     from harness import c02_names
-    return c02_names.draw(rng, {"w": w, "h": h, "res": [cap + reserve], "exc": [], "dead": [list(c) for c in sorted(dead)],
+    return _unit_variants(rng, c02_names.draw(rng, {"w": w, "h": h, "res": [cap + reserve], "exc": [], "dead": [list(c) for c in sorted(dead)],
             "dead_links": [list(l) for l in sorted(dead_links)], "foreign_zero": foreign,
             "vr": vr, "nets": nets, "cs": ([{"t": "res", "r": 0, "amt": reserve, "c": None}] if reserve else []),
             "ood": False, "unit": False, "vo": vo, "co": [list(c) for c in co],
             "seeds": [rng.randrange(2 ** 30) for _ in range(4)], "effort": rng.choice([0.1, 1.0]),
-            "max_temps": rng.choice([1, 2, 3]), "hilbert_bf": rng.random() < 0.5, "unit_r0": 0})
+            "max_temps": rng.choice([1, 2, 3]), "hilbert_bf": rng.random() < 0.5, "unit_r0": 0}))
+
+
+def _unit_variants(rng, prob):
+    """container kinds and calling conventions vary; the dead links are the sequence's own aspect"""
+    from harness import c02_variants
+    links = prob["dead_links"]
+    c02_variants.draw(rng, prob)
+    prob["dead_links"] = links
+    prob["var"]["links"] = "of-the-sequence"
+    return prob
 
 
 def gen_machine_sequence(rng, big=False):
@@ -433,6 +773,7 @@ class _SeqCtx(object):
 
 def eval_machine_sequence(ctx, seq):
     from harness import c02
+    reload_rig()
     c02.eval_problems(_SeqCtx(ctx, seq), seq["machine_sequence"])
     ctx.tag("machine-sequence:len=%d" % len(seq["machine_sequence"]))
     ctx.case(seq, True)
@@ -524,8 +865,8 @@ def _run_sessions(ctx):
         "sessions: a placer's arguments modified in place are reported only through their effect on later results "
         "(the property text speaks about what the placers return)"]
     rng = ctx.rng
-    n = ctx.scale(250, 6000)
-    m = ctx.scale(40, 800)
+    n = ctx.scale(250, 3500)
+    m = ctx.scale(40, 500)
     if ctx.extended:
         n, m = n * 4, m * 4
     sessions = [gen_session(rng, big=(not ctx.quick) and rng.random() < 0.1) for _ in range(n)]
